@@ -66,6 +66,17 @@ def walk_cases(rng, tier):
         for L in (1, 2, None):
             cases.append(Case("reg_walk", [opt(L), entries_coq(u2, es)],
                               [("reg_walk %s %d %s" % ("-" if L is None else L, len(es), entries_tokens(u2, es)), "nl")], "corpus"))
+    # corpus: pairs whose two identifiers are prefix-related (the sorted concatenation then differs from the smaller of the two
+    # concatenations), walked with page size 1 and 2 so that every such pair serves as a cursor
+    P = lambda x: ("n", x)
+    u3 = Universe([P(b"a"), P(b"ab"), P(b"b"), P(b"ba"), P(b"aba"), P(b"aa"), P(b"aab"), P(b"abc"), P(b"abcd"), P(b"bab"), P(b"c")])
+    es3 = [(P(b"b"), P(b"ba")), (P(b"a"), P(b"ab")), (P(b"ab"), P(b"aba")), (P(b"aa"), P(b"aab")), (P(b"abc"), P(b"abcd")),
+           (P(b"ba"), P(b"bab")), (P(b"a"), P(b"c")), (P(b"b"), P(b"c")), (P(b"ba"), P(b"c")), (P(b"ab"), P(b"c")), (P(b"aab"), P(b"b"))]
+    for L in (1, 2, 3, None):
+        for cmd in ("reg_walk", "reg_walk_sw"):
+            cases.append(Case("reg_walk", [opt(L), entries_coq(u3, es3)],
+                              [("%s %s %d %s" % (cmd, "-" if L is None else L, len(es3), entries_tokens(u3, es3)), "nl")], "corpus",
+                              "prefix-related identifiers"))
     sizes = [0, 1, 2, 9, 10, 11, 12, 29, 30, 31, 40] if tier == "quick" else list(range(0, 41))
     limits = [None, 1, 2, 3, 9, 10, 11, 29, 30, 31, 40, 0] if tier == "quick" else [None] + list(range(0, 41))
     for sz in sizes:
